@@ -1432,8 +1432,11 @@ impl Worterbuch {
     }
 
     pub(crate) async fn apply_all_grave_goods_and_last_wills(&mut self) {
-        self.apply_grave_goods(self.grave_goods()).await;
-        self.apply_last_wills(self.last_wills()).await;
+        // both are read before anything is applied: grave goods may cover the registrations themselves
+        let grave_goods = self.grave_goods();
+        let last_wills = self.last_wills();
+        self.apply_grave_goods(grave_goods).await;
+        self.apply_last_wills(last_wills).await;
     }
 
     #[instrument(level=Level::DEBUG, skip(self))]
